@@ -542,7 +542,12 @@ def run_scenario(ctx: Ctx, spec, with_model=True) -> Outcome:
             globs = list(spec["globs"])
 
             def take(r):
-                Snapshot.take(path=root, app_state=build_app(plan, r), replicated=globs)
+                # a rank other than 0 may pass a path of its own: rank 0's is the one that counts
+                mine = root if (r == 0 or not spec.get("diverge")) else os.path.join(os.path.realpath(base), f"path_given_by_rank{r}", "snap")
+                if spec.get("api") == "async_take":
+                    Snapshot.async_take(path=mine, app_state=build_app(plan, r), replicated=globs).wait()
+                else:
+                    Snapshot.take(path=mine, app_state=build_app(plan, r), replicated=globs)
                 return True
             w = World(spec["W"], write_policy=guard)
             _, errs = w.run(take)
@@ -579,6 +584,12 @@ def analyse(plan: Plan, root: str, world, md, out: Outcome):
         return os.path.realpath(os.path.join(root, loc))
 
     writes = [e for e in world.events if e["kind"] == "write_begin"]
+    for e in writes:
+        # the storage plugin that performed the write must be rooted at the snapshot's path (rank 0's)
+        if os.path.realpath(e.get("root", root)) != os.path.realpath(root):
+            out.failures.append(("C05:write-outside-root:plugin-rooted-elsewhere",
+                                 f"rank {e['rank']} wrote {e['path']!a} through a storage plugin rooted at {e.get('root')!a}, not at the snapshot path {root!a}"))
+            break
     spellings = {}                     # file -> every string under which a write or a manifest entry names it
     for s in [e["path"] for e in writes] + [r["loc"] for r in refs]:
         spellings.setdefault(real(s), set()).add(s)
@@ -805,6 +816,9 @@ def gen_spec(rng):
     elif g < 0.7:
         cands = sorted({p for _, p, n in plan.leaves[0] if n[0] != "S"})
         spec["globs"] = [glob_escape(p) for p in rng.sample(cands, min(len(cands), rng.randint(1, 3)))]
+    # which API, and whether ranks > 0 pass a path of their own (legal: "the value specified by rank 0 will be used")
+    spec["api"] = rng.choice(["take", "take", "async_take"])
+    spec["diverge"] = W > 1 and rng.random() < 0.5
     return spec
 
 
